@@ -118,6 +118,13 @@ def step (w : List String) : String :=
       | some false => "0"
       | none => "none"
     | _, _ => "bad-op"
+  | ["pathsx", rs, hc] => match parseRefs rs, unhexS hc with
+    | some ms, some c =>
+      let k := fun (e : Except Err Key) => match e with
+        | .ok key => (match key.stored with | some x => hexS x | none => "?")
+        | .error _ => "ERR"
+      "P=" ++ k (pathPrepareM ms c) ++ " G=" ++ k (pathGetStringM ms c)
+    | _, _ => "bad-op"
   | ["paths", h] => match unhexS h with
     | some s => String.ofList (pathsOp s)
     | none => "bad-op"
